@@ -25,6 +25,8 @@ import (
 	"strconv"
 	"strings"
 	"sync"
+	"sync/atomic"
+	"time"
 
 	"github.com/notaryproject/notation-go/registry"
 	"github.com/notaryproject/notation-go/zzverif/lib/hx"
@@ -663,17 +665,19 @@ func runHistory(kind string, ops []string) (vs []viol, outcomes map[string]int, 
 	if kind == "disk" {
 		repo2, err := registry.NewOCIRepository(dir, registry.RepositoryOptions{})
 		if err != nil {
-			// oras-go refuses to load the layout; nothing can be listed. Not judged (the statement speaks about listings).
-			cause := "other"
+			// oras-go refuses to load a layout that holds a referrer whose subject names an existing
+			// digest with another size (index loading verifies the size); nothing can be listed then.
+			// Not judged: the statement speaks about listings, and the refusal is oras-go's.
+			has := false
 			for _, op := range ops {
 				if op == "foreign:notation@s1prime-size" {
-					cause = "history contains a referrer whose subject has S1's digest and another size"
+					has = true
 				}
 			}
-			outcomes["disk/reopened: layout refused by oras-go on open ("+cause+") (not judged)"]++; if os.Getenv("C19_PROBE") != "" { fmt.Println("REOPEN ERR:", err) }
-			if cause == "other" {
+			if !has || !strings.Contains(err.Error(), "expected content size") || !strings.Contains(err.Error(), w.subj[0].Digest.String()) {
 				return vs, outcomes, w.evals, nsig, nother, fmt.Errorf("re-open failed: %w", err)
 			}
+			outcomes["disk/reopened: layout refused by oras-go on open (holds a referrer whose subject has S1's digest and another size) (not judged)"]++
 		} else {
 			t2, ok := repo2.(oras.GraphTarget)
 			if !ok {
@@ -840,7 +844,12 @@ func exploreLevels(r *hx.Run, label string, depth int, fixed [][]string) {
 		if fixed != nil {
 			n = len(fixed)
 		}
+		var skipped atomic.Int64
 		r.Parallel(n, func(i int) {
+			if r.Expired() {
+				skipped.Add(1)
+				return
+			}
 			var ops []string
 			if fixed != nil {
 				ops = fixed[i]
@@ -884,13 +893,16 @@ func exploreLevels(r *hx.Run, label string, depth int, fixed [][]string) {
 			col.add(i, viol{"history/panic", fmt.Sprintf("[%s store] panic: %v\n%s", kind, v, stack)}, histCase{"history", kind, ops})
 		})
 		col.flush(r)
+		if k := skipped.Load(); k > 0 {
+			r.Capped(fmt.Sprintf("%s: internal deadline, %d of %d histories of level %d not run", label, k, n, length))
+		}
 	}
 	r.Extra["sequences_"+label] = sequences
 	if fixed == nil {
 		r.Extra["depth_all_orders_"+label] = depth
 	}
 	r.Extra["histories_with_signatures_all_checks_passed_"+label] = okControls
-	if okControls == 0 && r.Violations() == 0 {
+	if okControls == 0 && r.Violations() == 0 && !r.Expired() {
 		r.Infra("%s: no history with a signature passed all checks (positive control)", label)
 	}
 }
@@ -1282,6 +1294,11 @@ func main() {
 		fLo, fHi = 6, 12
 	}
 	r.Extra["alphabet"] = alphabet
+	if r.Thorough() {
+		r.SetDeadline(8 * time.Minute)
+	} else {
+		r.SetDeadline(40 * time.Second)
+	}
 	explore(r, "memory", dMem)
 	explore(r, "loose", dLoose)
 	explore(r, "disk", dDisk)
